@@ -306,6 +306,84 @@ def shrink_set(r, pred):
     return boxes
 
 
+
+# --------------------------------------------------------------------------------------------------
+# API sequences on sets (key C15:stale-vertex-cache): the shares must be a function of the boxes' CURRENT fields
+
+KEY_STALE = "C15:stale-vertex-cache"
+
+
+def parse_sseq(line):
+    toks = line.split()
+    d = dict(t.split("=", 1) for t in toks[2:])
+    return {"k": int(toks[1]), "boxes": d["boxes"].split(";"), "ops": d["ops"].split("|"), "cur": d["cur"].split(";"),
+            "D": d["D"], "Dc": d["Dc"], "F": d["F"], "raw": line}
+
+
+def sseq_line(boxes, ops):
+    return "sseq boxes=%s ops=%s" % (";".join(boxes), "|".join(o or "-" for o in ops))
+
+
+def sseq_stale(q):
+    return q["D"] != q["F"] or q["Dc"] != q["F"]
+
+
+def sseq_gap(q):
+    """largest difference between a share of the mutated boxes (or their clones) and of the fresh boxes"""
+    if not sseq_stale(q):
+        return 0.0
+    f = shares_of_txt(q["F"])
+    g = 0.0
+    for t in (q["D"], q["Dc"]):
+        d = shares_of_txt(t)
+        if isinstance(d, str) or isinstance(f, str):
+            if d != f:
+                g = max(g, 1.0)
+        else:
+            g = max([g] + [abs(x - y) for x, y in zip(d, f)])
+    return max(g, 1e-12)
+
+
+def eval_sseq(boxes, ops):
+    ls = [l for l in c08.run_eval([sseq_line(boxes, ops)], tag="c15s") if l.startswith("sseq ")]
+    return parse_sseq(ls[0]) if ls else None
+
+
+def shrink_sseq(q):
+    boxes, ops = list(q["boxes"]), [[] if o == "-" else o.split(",") for o in q["ops"]]
+
+    need = 0.1 if sseq_gap(q) > 0.1 else 0.0
+
+    def fails(bs, os_):
+        r = eval_sseq(bs, [",".join(o) for o in os_])
+        return r is not None and sseq_stale(r) and sseq_gap(r) > need
+    changed = True
+    while changed:
+        changed = False
+        for i in range(len(boxes)):
+            if len(boxes) > 2 and fails(boxes[:i] + boxes[i + 1:], ops[:i] + ops[i + 1:]):
+                boxes, ops, changed = boxes[:i] + boxes[i + 1:], ops[:i] + ops[i + 1:], True
+                break
+        if changed:
+            continue
+        for i in range(len(ops)):
+            for j in range(len(ops[i])):
+                cand = [list(o) for o in ops]
+                del cand[i][j]
+                if fails(boxes, cand):
+                    ops, changed = cand, True
+                    break
+            if changed:
+                break
+    return boxes, [",".join(o) or "-" for o in ops]
+
+
+def shares_of_txt(t):
+    if t in ("P", "T"):
+        return {"P": "panic", "T": "no return"}[t]
+    return [float(F32(int(x))) for x in t.split("/")[0].split(",")]
+
+
 def coq_ibox(b):
     return "(mkibox (%d) (%d) (%d) (%d))" % b
 
@@ -332,6 +410,21 @@ def run(chk):
             break
         start = part[-1]["k"] + 1
     chk.log("implementation ran %d box sets" % len(cases))
+    # API sequences: boxes prepared with gen_vertices() and mutated / cloned afterwards; the shares of the set must be
+    # bit for bit those of fresh boxes with the same field values (which join the ordinary stream: slab truth, model)
+    n_sseq = 500 if chk.tier == "quick" else 5000
+    sseqs, start = [], 0
+    for _ in range(20):
+        rc, out, err = vlib.harness_run("geom", ["setseqs", "--seed", chk.seed, "--n", n_sseq, "--from", start], timeout=2400)
+        part = [parse_sseq(l) for l in out.split("\n") if l.startswith("sseq ")]
+        sseqs += part
+        if rc != 3 or not part:
+            break
+        start = part[-1]["k"] + 1
+    stale_sets = [q for q in sseqs if sseq_stale(q)]
+    extra = c08.run_eval(["set cfg=sseq boxes=%s" % ";".join(q["cur"]) for q in sseqs[:(150 if chk.tier == "quick" else 1500)]], tag="c15s")
+    cases += [parse_set(l) for l in extra if l.startswith("set ")]
+    chk.log("API sequences on sets: %d run, %d with shares that differ from those of fresh boxes" % (len(sseqs), len(stale_sets)))
 
     hist = Counter()
     stats = Counter()
@@ -453,6 +546,10 @@ def run(chk):
         "input_distribution": dict(hist),
         "counts": dict(stats),
         "integer_sets": len(int_idx),
+        "api_set_sequences": len(sseqs),
+        "api_set_sequences_with_outdated_cached_vertices": sum(1 for q in sseqs if any(
+            c08.cache_stale_at_end(o, parse_box(b)["angle"] is not None) for b, o in zip(q["boxes"], q["ops"]))),
+        "api_set_sequences_stale": len(stale_sets),
         "oracle_failures": len(failing),
         "oracle_failures_in_known_family": sum(1 for f in failing if f[2]),
         "model_vs_impl_disagreements": len(disagreements),
@@ -495,6 +592,24 @@ def run(chk):
                        "failing_sets_in_this_run": len(group),
                        "replay_cmd": "printf '%s\\n' > /tmp/c15.txt && /verif/.cache/target/release/geom eval --file /tmp/c15.txt   # or ./check C15 --replay <this file>" % line,
                        "broken": chk.broken})
+    if stale_sets:
+        q = max(stale_sets, key=lambda x: (min(sseq_gap(x), 0.5), -len(x["boxes"])))
+        bs, os_ = shrink_sseq(q)
+        qq = eval_sseq(bs, os_) or q
+        line = sseq_line(bs, os_)
+        fresh = eval_set([parse_box(b) for b in qq["cur"]])
+        chk.violation(KEY_STALE, "own-area shares of boxes mutated after gen_vertices() are not those of their current fields: "
+                      "got %s (clones: %s), fresh boxes with the same fields give %s"
+                      % (shares_of_txt(qq["D"]), shares_of_txt(qq["Dc"]), shares_of_txt(qq["F"])),
+                      {"input": line,
+                       "api_sequence": [{"box": c08.decoded(parse_box(b)), "then": c08.describe_ops(o)} for b, o in zip(bs, os_)],
+                       "current_fields": [c08.decoded(parse_box(b)) for b in qq["cur"]],
+                       "shares_of_the_mutated_boxes": shares_of_txt(qq["D"]), "shares_of_their_clones": shares_of_txt(qq["Dc"]),
+                       "shares_of_fresh_boxes": shares_of_txt(qq["F"]),
+                       "exact_uncovered_fractions": None if fresh is None else [float(e) for (_, _, e) in expected_shares(fresh)],
+                       "failing_sequences_in_this_run": len(stale_sets),
+                       "replay_cmd": "printf '%s\\n' > /tmp/c15.txt && /verif/.cache/target/release/geom eval --file /tmp/c15.txt   # or ./check C15 --replay <this file>" % line,
+                       "broken": chk.broken})
     if known_f:
         report(known_f, KEY_KNOWN, "geo 0.27 BooleanOps::difference fails on rotated boxes sharing edge lines")
     if noret_f:
@@ -519,6 +634,11 @@ def replay(chk, path):
     vlib.harness_build(["geom"])
     ls = c08.run_eval([rep["input"]], tag="c15")
     print(ls[0][:1500])
+    if ls[0].startswith("sseq "):
+        q = parse_sseq(ls[0])
+        print("mutated boxes:", shares_of_txt(q["D"]), " clones:", shares_of_txt(q["Dc"]), " fresh boxes:", shares_of_txt(q["F"]))
+        print("REPRODUCED" if sseq_stale(q) else "not reproduced")
+        return 1 if sseq_stale(q) else 0
     r = parse_set(ls[0])
     fails = oracle(r)
     for f in fails:
